@@ -268,6 +268,62 @@ func fdHasType(p fdPartition, svc, typ string) bool {
 	return false
 }
 
+// fdEncRaw turns a parsed (raw) selection set into the model's raw query: every selection and fragment carries the
+// verdict of its directives; sub-selections are encoded with the type the field leads to
+func fdEncRaw(in *fdIntern, ss *graphql.SelectionSet, depth *int, d int) (interface{}, error) {
+	if d > *depth {
+		*depth = d
+	}
+	sels := []interface{}{}
+	frags := []interface{}{}
+	if ss != nil {
+		for _, s := range ss.Selections {
+			ok, err := graphql.ShouldIncludeNode(s.Directives)
+			if err != nil {
+				return nil, err
+			}
+			sub, err := fdEncRaw(in, s.SelectionSet, depth, d+1)
+			if err != nil {
+				return nil, err
+			}
+			sels = append(sels, map[string]interface{}{"a": in.id(s.Alias), "n": in.id(fdNameKey(s)), "i": ok, "s": sub})
+		}
+		for _, f := range ss.Fragments {
+			ok, err := graphql.ShouldIncludeNode(f.Directives)
+			if err != nil {
+				return nil, err
+			}
+			on, known := fdTypeID[f.On]
+			if !known {
+				return nil, fmt.Errorf("fragment on %s", f.On)
+			}
+			sub, err := fdEncRaw(in, f.SelectionSet, depth, d+1)
+			if err != nil {
+				return nil, err
+			}
+			frags = append(frags, map[string]interface{}{"on": on, "i": ok, "s": sub})
+		}
+	}
+	return map[string]interface{}{"sels": sels, "frags": frags}, nil
+}
+
+func fdSortQ(v interface{}) {
+	l, ok := v.([]interface{})
+	if !ok {
+		return
+	}
+	for _, x := range l {
+		if m, ok := x.(map[string]interface{}); ok {
+			fdSortQ(m["k"])
+		}
+	}
+	sort.SliceStable(l, func(i, j int) bool {
+		a, _ := l[i].(map[string]interface{})
+		b, _ := l[j].(map[string]interface{})
+		return toInt64(a["a"]) < toInt64(b["a"])
+	})
+}
+
 // c06Model compares the real normalizer + planner + executor with the Lean model on one union-free query.
 func c06Model(c *Ctx, m *Model, w *fdWorld, cs c06Case, query string, gotGateway, wantMono interface{}) {
 	rep := c.Rep
@@ -365,6 +421,47 @@ func c06Model(c *Ctx, m *Model, w *fdWorld, cs c06Case, query string, gotGateway
 			return []interface{}{}
 		}
 		return l
+	}
+	// the normalizer: the model's normal form of the raw query is the real flattener's output
+	rawQ, perr := graphql.Parse(query, map[string]interface{}{})
+	if perr == nil {
+		depth := 0
+		raw, rerr := fdEncRaw(in, rawQ.SelectionSet, &depth, 1)
+		if rerr == nil {
+			// child types for every (type, field) the raw query may mention, excluded selections included
+			var childAll []interface{}
+			for name, id := range in.ids {
+				base := fdBaseField(name)
+				for _, typ := range []string{"Query", "A", "B"} {
+					if ct := fdChild(typ, base); ct != "" {
+						childAll = append(childAll, map[string]interface{}{"t": fdTypeID[typ], "n": id, "c": fdTypeID[ct]})
+					}
+				}
+			}
+			sort.Slice(childAll, func(i, j int) bool { return Canon(childAll[i]) < Canon(childAll[j]) })
+			applies := []interface{}{}
+			for _, t := range []int{fdTQuery, fdTA, fdTB} {
+				applies = append(applies, map[string]interface{}{"on": t, "t": t})
+			}
+			nresp, nerr := m.Call(map[string]interface{}{"op": "normalize", "child": nz(childAll), "applies": applies, "raw": raw, "t": fdTQuery, "fuel": 2*depth + 4})
+			if nerr != nil {
+				rep.Fail("harness_error", nil, one, map[string]interface{}{"error": nerr.Error()})
+				return
+			}
+			var mn, rn interface{}
+			b, _ := json.Marshal(nresp["normalized"])
+			json.Unmarshal(b, &mn)
+			b, _ = json.Marshal(qs)
+			json.Unmarshal(b, &rn)
+			// the real normalizer orders selections by alias string, the model by interned id: compare as sets per level
+			fdSortQ(mn)
+			fdSortQ(rn)
+			if Canon(mn) != Canon(rn) {
+				rep.Fail("impl_ne_model", nil, one, map[string]interface{}{"what": "the normalizer's output differs from the model's normal form", "query": query, "impl": rn, "model": mn, "names": in.names})
+				return
+			}
+			rep.Count("normalizer_compared")
+		}
 	}
 	resp, err := m.Call(map[string]interface{}{"op": "gateway", "owners": nz(owners), "picks": nz(pickList), "child": nz(child), "store": nz(store),
 		"root": map[string]interface{}{"t": fdTQuery, "k": 0}, "svc": 0, "query": qs})
